@@ -29,7 +29,8 @@ vars == <<l, st, aux, mode, rej, stats>>
 Tags == {"Init.hs", "Init.forged", "Init.nil", "Init.free", "Write", "Write.dead", "Write.split", "Write.multi", "Write.zero",
          "Read", "Read.data", "Read.partial", "Read.zero", "Read.timeout", "Read.eof", "Read.error", "Read.alert", "Read.kuresp",
          "Read.peek", "Read.sticky", "KeyUpdate", "Close", "Mutate", "Keystream", "Keystream.again", "Keystream.err", "KsLaw", "Nonce",
-         "Ramp.grow", "Ramp.full", "Ramp.off", "Proc", "Enable", "Enable.again", "Init.weakforged"}
+         "Ramp.grow", "Ramp.full", "Ramp.off", "Proc", "Enable", "Enable.again", "Init.weakforged",
+         "CloseWrite", "WriteDeadline", "Read.kublocked", "Write.blocked", "Read.halfclosed"}
 
 \* the keystream queries a side has made at its current write position (epoch, seq), oldest first:
 \* qs[i] = [n |-> requested length, ks |-> bytes returned]; forgotten when the side writes a record
@@ -39,6 +40,8 @@ NoKs == [has |-> FALSE, ep |-> 0, seq |-> 0, qs |-> <<>>]
 NoAux == [sc |-> 0, pat |-> [x \in Sides |-> <<0>>], run |-> 1, ks |-> [x \in Sides |-> NoKs], khist |-> {}, proc |-> ProcInit]
 
 ErrClass(e) == IF e = "" THEN "none" ELSE IF e = "EOF" THEN "eof" ELSE IF e = "i/o timeout" THEN "timeout" ELSE "error"
+\* for calls that write, a passed write deadline is an error like any other
+WErrClass(e) == IF ErrClass(e) = "timeout" THEN "error" ELSE ErrClass(e)
 
 \* the byte at position p (0-based) of the stream side x writes in this scenario
 StreamByte(a, x, p) == a.pat[x][((p \div a.run) % Len(a.pat[x])) + 1]
@@ -134,7 +137,7 @@ StepWrite1(s, a, ev, x, q, hdrs, r) ==
   ELSE IF \E i \in 1..Len(ev.head) : ev.head[i] # StreamByte(a, x, ev.off + i - 1) THEN Bad("harness-pattern", s, a)
   ELSE IF ev.wrote[Peer(x)] # <<>> THEN Bad("peer-wrote-during-write", s, a)
   ELSE IF ~r.ok THEN Bad(IF s.wr[x].dead \/ s.wr[x].closed THEN "write-after-error-sent-records" ELSE "fragmentation", s, a)
-  ELSE IF ev.ret # r.m \/ ErrClass(ev.err) # r.err THEN Bad("write-result", s, a)
+  ELSE IF ev.ret # r.m \/ WErrClass(ev.err) # r.err THEN Bad("write-result", s, a)
   ELSE IF ~WireOK(q, r.wrote[x], hdrs) THEN Bad("record-header", s, a)
   ELSE IF ~NonceOK(q, r.wrote[x], hdrs) THEN Bad("explicit-nonce", s, a)
   ELSE IF ~StateOK(r.s, ev.st) THEN Bad("counters", s, a)
@@ -142,6 +145,7 @@ StepWrite1(s, a, ev, x, q, hdrs, r) ==
   ELSE IF KsLawApplies(a, x, r.wrote[x], hdrs) /\ ~KsLaw(a, q, x, ev.off, r.wrote[x], hdrs) THEN Bad("keystream-xor", s, a)
   ELSE Out("", r.s, ClearKs(a, ev),
            {"Write"} \cup (IF r.err = "error" THEN {"Write.dead"} ELSE {})
+                     \cup (IF r.err = "error" /\ r.s.wr[x].seq > s.wr[x].seq THEN {"Write.blocked"} ELSE {})
                      \cup (IF q.split /\ ev.n > 1 /\ r.err = "none" THEN {"Write.split"} ELSE {})
                      \cup (IF Len(hdrs) > 1 THEN {"Write.multi"} ELSE {})
                      \cup (IF ev.n = 0 THEN {"Write.zero"} ELSE {})
@@ -192,7 +196,10 @@ StepRead2(s, a, ev, x, r) ==
                \cup (IF sticky /\ ev.k > 0 THEN {"Read.sticky"} ELSE {})
                \cup (IF \E i \in 1..Len(r.wrote[x]) : r.wrote[x][i].typ = "fatal" THEN {"Read.alert"} ELSE {})
                \cup (IF \E i \in 1..Len(r.wrote[x]) : r.wrote[x][i].typ = "ku" THEN {"Read.kuresp"} ELSE {})
-               \cup (IF ev.m > 0 /\ r.err # "none" THEN {"Read.peek"} ELSE {}), FALSE)
+               \cup (IF ev.m > 0 /\ r.err # "none" THEN {"Read.peek"} ELSE {})
+               \* a requested key update was taken in by a side that could not answer it
+               \cup (IF r.wrote[x] = <<>> /\ r.s.wr[x].seq > s.wr[x].seq /\ r.s.rd[x].ep > s.rd[x].ep THEN {"Read.kublocked"} ELSE {})
+               \cup (IF ev.m > 0 /\ (s.wr[x].shut \/ s.wr[x].exp) THEN {"Read.halfclosed"} ELSE {}), FALSE)
 StepRead1(s, a, ev, cands) ==
   IF cands = {} THEN Bad(ReadWhy(s, ev), s, a)
   ELSE StepRead2(s, a, ev, ev.x, DoRead(s, ev.x, ev.k, CHOOSE c \in cands : TRUE))
@@ -208,7 +215,7 @@ StepRead(s, a, ev) ==
 StepCtl(s, a, ev, r, tag) ==
   LET x == ev.x IN
   IF ~r.ok THEN Bad("not-enabled", s, a)
-  ELSE IF ErrClass(ev.err) # r.err THEN Bad("result", s, a)
+  ELSE IF WErrClass(ev.err) # r.err THEN Bad("result", s, a)
   ELSE IF ~WireOK(s.q, r.wrote[x], ev.wrote[x]) \/ ev.wrote[Peer(x)] # <<>> THEN Bad("record-header", s, a)
   ELSE IF ~NonceOK(s.q, r.wrote[x], ev.wrote[x]) THEN Bad("explicit-nonce", s, a)
   ELSE IF ~StateOK(r.s, ev.st) THEN Bad("counters", s, a)
@@ -218,6 +225,10 @@ StepKeyUpdate(s, a, ev) == StepCtl(s, a, ev, DoKeyUpdate(s, ev.x, ev.req), "KeyU
 
 \* whether a close_notify went out is read off the wire; the value Close returns is not specified
 StepClose(s, a, ev) == StepCtl(s, a, [ev EXCEPT !.err = ""], DoClose(s, ev.x, ev.wrote[ev.x] # <<>>), "Close")
+
+\* CloseWrite: whether a close_notify went out is read off the wire, the returned value is not specified
+StepCloseWrite(s, a, ev) == StepCtl(s, a, [ev EXCEPT !.err = ""], DoCloseWrite(s, ev.x, ev.wrote[ev.x] # <<>>), "CloseWrite")
+StepWriteDeadline(s, a, ev) == StepCtl(s, a, ev, DoWriteDeadlinePast(s, ev.x), "WriteDeadline")
 
 StepMutate1(s, a, ev, r) ==
   IF ~ev.did THEN Bad("harness-no-mutation", s, a)
@@ -270,6 +281,8 @@ Step(s, a, ev) ==
     [] ev.ev = "Read" -> StepRead(s, a, ev)
     [] ev.ev = "KeyUpdate" -> StepKeyUpdate(s, a, ev)
     [] ev.ev = "Close" -> StepClose(s, a, ev)
+    [] ev.ev = "CloseWrite" -> StepCloseWrite(s, a, ev)
+    [] ev.ev = "WriteDeadline" -> StepWriteDeadline(s, a, ev)
     [] ev.ev = "Mutate" -> StepMutate(s, a, ev)
     [] ev.ev = "Keystream" -> StepKeystream(s, a, ev)
     [] OTHER -> Bad("harness-" \o ev.ev, s, a)      \* Panic, BadOp
